@@ -254,7 +254,7 @@ func judgeHistories(c *lib.Ctx, dir, name string, hs [][]hevent, ps []hparams) e
 			}
 		}
 	}
-	bad, err := lib.JudgeGroups(c, name, dir, "TracePHashMap", hs, 5, 12*time.Minute)
+	bad, err := lib.JudgeGroups(c, name, dir, "TracePHashMap", hs, 4, 12*time.Minute)
 	if err != nil {
 		return err
 	}
